@@ -276,4 +276,171 @@ Lemma p_arg_infix_loop_S f (e : expr * Z) (s : stream) : p_arg_infix_loop cfg (S
       | Some _ => dop e', s <- p_infix cfg f e (adv (after_peek s)); p_arg_infix_loop cfg f e' s
       end.
 Proof. reflexivity. Qed.
+
+(* --- results that keep the invariant ---------------------------------------------------------------- *)
+Definition good {A} (PA : A -> Prop) (r : pres A) : Prop :=
+  match r with
+  | POk a s' => PA a /\ SInv s'
+  | PErr _ off => OffOk off
+  | PCrash _ s' => SInv s'
+  | PFuel => True
+  end.
+Definition good0 {A} (PA : A -> Prop) (r : pres A) : Prop :=       (* ... and leaves nothing pushed back *)
+  match r with
+  | POk a s' => PA a /\ SInv0 s'
+  | PErr _ off => OffOk off
+  | PCrash _ s' => SInv s'
+  | PFuel => True
+  end.
+Definition anyP {A} : A -> Prop := fun _ => True.
+Definition PO (e : expr * Z) : Prop := OffOk (snd e).
+
+Lemma good_bind {A B} (PA : A -> Prop) (PB : B -> Prop) (r : pres A) (f : A -> stream -> pres B) :
+  good PA r -> (forall a s, PA a -> SInv s -> good PB (f a s)) -> good PB (pbind r f).
+Proof. destruct r; cbn [good pbind]; intros H Hf; try exact H. destruct H; apply Hf; assumption. Qed.
+Lemma good0_good {A} (PA : A -> Prop) r : good0 PA r -> good PA r.
+Proof. destruct r; cbn; intros H; try exact H. destruct H as [H1 [H2 _]]. split; assumption. Qed.
+Lemma good_weaken {A} (PA PB : A -> Prop) r : (forall a, PA a -> PB a) -> good PA r -> good PB r.
+Proof. intros Hw. destruct r; cbn; intros H; try exact H. destruct H; split; auto. Qed.
+Lemma good_err_cur {A} (PA : A -> Prop) c s : SInv s -> good PA (err_cur c s).
+Proof. intros H. unfold err_cur. cbn. apply off_cur; exact H. Qed.
+Lemma good_err_peek {A} (PA : A -> Prop) c s : SInv s -> good PA (err_peek c s).
+Proof. intros H. unfold err_peek. cbn. apply off_peek; exact H. Qed.
+
+(* --- the non-recursive pieces ------------------------------------------------------------------------- *)
+Ltac split_head :=
+  repeat match goal with
+  | |- good _ (match ?x with _ => _ end) => destruct x eqn:?
+  | |- good _ (if ?x then _ else _) => destruct x eqn:?
+  end.
+Lemma good_literal s : SInv s -> good PO (p_literal s).
+Proof.
+  intros H. pose proof (off_cur s H) as Hc. unfold p_literal. cbv zeta. split_head;
+    first [apply good_err_cur; exact H | cbn [good]; first [exact I | exact H | exact Hc | split; [exact Hc | exact H]]].
+Qed.
+
+Lemma maybe_index_cases s : maybe_index s = POk true s \/ maybe_index s = POk false s \/ maybe_index s = err_cur ESyntax s.
+Proof. unfold maybe_index. destruct (is_ty T_INDEX s); [destruct (_ && _)|]; auto. Qed.
+
+Ltac s_inv := first [ assumption | apply sinv0_sinv; s_inv0 | apply sinv_adv; s_inv | apply sinv_after_peek; s_inv ]
+with s_inv0 := first [ assumption | apply sinv0_adv; s_inv ].
+
+Lemma good_slice s : SInv s -> good anyP (p_slice cfg s).
+Proof.
+  intros H. unfold p_slice.
+  destruct (maybe_index_cases s) as [E | [E | E]]; rewrite E; cbn [pbind]; try (apply good_err_cur; exact H).
+  all: cbv zeta beta iota.
+  all: match goal with |- good _ (if negb (is_ty T_COLON ?x) then _ else _) =>
+         assert (Hx : SInv x) by s_inv; destruct (is_ty T_COLON x); cbn [negb]; [|apply good_err_cur; exact Hx] end.
+  all: match goal with |- context [maybe_index (adv ?x)] =>
+         assert (H1 : SInv0 (adv x)) by s_inv0;
+         destruct (maybe_index_cases (adv x)) as [E1 | [E1 | E1]]; rewrite E1; cbn [pbind]; try (apply good_err_cur; s_inv) end.
+  all: cbv zeta beta iota.
+  all: repeat match goal with
+       | |- context [is_ty T_COLON ?x] => destruct (is_ty T_COLON x) eqn:?
+       end; cbv beta iota.
+  all: repeat match goal with
+       | |- context [maybe_index ?x] =>
+           let E2 := fresh "E2" in destruct (maybe_index_cases x) as [E2 | [E2 | E2]]; rewrite E2; cbn [pbind]; cbv beta iota
+       end.
+  all: try (unfold err_cur at 1; cbn [pbind good]; apply off_cur; s_inv).
+  all: cbn [pbind]; cbv beta iota zeta.
+  all: match goal with
+       | |- good _ (if ?b then POk _ (s_push ?x _) else PErr _ _) =>
+           destruct b; cbn [good]; [split; [exact I|]; apply sinv_push_cur; s_inv0 | apply off_cur; exact H]
+       end.
+Qed.
+
+(* --- the fourteen mutually recursive functions ------------------------------------------------------------- *)
+Definition Q (f : nat) : Prop :=
+  (forall inf s, SInv0 s -> good anyP (p_query cfg f inf s)) /\
+  (forall s, SInv s -> good anyP (p_selectors cfg f s)) /\
+  (forall s, SInv s -> good anyP (p_bracket_loop cfg f s)) /\
+  (forall s, SInv s -> good anyP (p_filter_selector cfg f s)) /\
+  (forall prec s, SInv s -> good PO (p_fexpr cfg f prec s)) /\
+  (forall prec lhs s, PO lhs -> SInv s -> good PO (p_fexpr_loop cfg f prec lhs s)) /\
+  (forall s, SInv s -> good PO (p_primary cfg f s)) /\
+  (forall lhs s, PO lhs -> SInv s -> good PO (p_infix cfg f lhs s)) /\
+  (forall s, SInv s -> good PO (p_grouped cfg f s)) /\
+  (forall e s, PO e -> SInv s -> good PO (p_grouped_loop cfg f e s)) /\
+  (forall s, SInv s -> good PO (p_prefix cfg f s)) /\
+  (forall s, SInv s -> good PO (p_function cfg f s)) /\
+  (forall s, SInv s -> good anyP (p_args_loop cfg f s)) /\
+  (forall e s, PO e -> SInv s -> good PO (p_arg_infix_loop cfg f e s)).
+
+Ltac off_ok := unfold PO in *; cbn [snd fst] in *; first [ assumption | apply off_cur; s_inv | apply off_peek; s_inv ].
+Ltac leaf := cbn [good]; first [ exact I | off_ok | s_inv
+                               | split; [ first [exact I | off_ok] | first [s_inv | apply sinv_push_cur; s_inv0] ] ].
+
+Theorem Q_all : forall f, Q f.
+Proof.
+  induction f as [|f IH]; [repeat split; intros; exact I|].
+  destruct IH as (IHquery & IHsel & IHbr & IHfs & IHfe & IHfl & IHpr & IHin & IHgr & IHgl & IHpf & IHfn & IHal & IHai).
+  Ltac pgo IHquery IHsel IHbr IHfs IHfe IHfl IHpr IHin IHgr IHgl IHpf IHfn IHal IHai :=
+    repeat (cbv zeta beta;
+      match goal with
+      | |- good _ (pbind (if _ then _ else _) _) => eapply (good_bind anyP); [ | intros ? ? ? ? ]
+      | |- good _ (pbind (match _ with _ => _ end) _) => eapply (good_bind anyP); [ | intros ? ? ? ? ]
+      | |- good _ (pbind _ _) => eapply good_bind; [ | intros ? ? ? ? ]
+      | |- good _ (p_query _ _ _ _) => apply IHquery; s_inv0
+      | |- good _ (p_selectors _ _ _) => apply IHsel; s_inv
+      | |- good _ (p_bracket_loop _ _ _) => apply IHbr; s_inv
+      | |- good _ (p_filter_selector _ _ _) => apply IHfs; s_inv
+      | |- good _ (p_fexpr _ _ _ _) => apply IHfe; s_inv
+      | |- good _ (p_fexpr_loop _ _ _ _ _) => apply IHfl; [off_ok | s_inv]
+      | |- good _ (p_primary _ _ _) => apply IHpr; s_inv
+      | |- good _ (p_infix _ _ _ _) => apply IHin; [off_ok | s_inv]
+      | |- good _ (p_grouped _ _ _) => apply IHgr; s_inv
+      | |- good _ (p_grouped_loop _ _ _ _) => apply IHgl; [off_ok | s_inv]
+      | |- good _ (p_prefix _ _ _) => apply IHpf; s_inv
+      | |- good _ (p_function _ _ _) => apply IHfn; s_inv
+      | |- good _ (p_args_loop _ _ _) => apply IHal; s_inv
+      | |- good _ (p_arg_infix_loop _ _ _ _) => apply IHai; [off_ok | s_inv]
+      | |- good _ (p_slice _ _) => eapply good_weaken; [|apply good_slice; s_inv]; intros; exact I
+      | |- good _ (p_literal _) => apply good_literal; s_inv
+      | |- good _ (err_cur _ _) => apply good_err_cur; s_inv
+      | |- good _ (err_peek _ _) => apply good_err_peek; s_inv
+      | |- good _ (match ?x with _ => _ end) => first [is_var x; destruct x | destruct x eqn:?]
+      | |- good _ (if ?x then _ else _) => destruct x eqn:?
+      | |- good _ (let '(_, _) := ?x in _) => first [is_var x; destruct x | destruct x eqn:?]
+      | |- good _ (POk _ (if ?b then _ else _)) => destruct b
+      | |- good _ (POk _ _) => leaf
+      | |- good _ (PErr _ _) => leaf
+      | |- good _ (PCrash _ _) => leaf
+      | |- good _ PFuel => exact I
+      end).
+  repeat split.
+  - intros inf s H. rewrite p_query_S. pose proof (sinv0_sinv _ H). pgo IHquery IHsel IHbr IHfs IHfe IHfl IHpr IHin IHgr IHgl IHpf IHfn IHal IHai.
+  - intros s H. rewrite p_selectors_S. pgo IHquery IHsel IHbr IHfs IHfe IHfl IHpr IHin IHgr IHgl IHpf IHfn IHal IHai.
+  - intros s H. rewrite p_bracket_loop_S. pgo IHquery IHsel IHbr IHfs IHfe IHfl IHpr IHin IHgr IHgl IHpf IHfn IHal IHai.
+  - intros s H. rewrite p_filter_selector_S. pgo IHquery IHsel IHbr IHfs IHfe IHfl IHpr IHin IHgr IHgl IHpf IHfn IHal IHai.
+  - intros prec s H. rewrite p_fexpr_S. destruct (negb (in_token_map (cty s))); [apply good_err_cur; exact H|].
+    pose proof (IHpr s H) as G. destruct (p_primary cfg f s) as [lhs s1|c off|x s1|]; cbn [good] in G.
+    + destruct G as [G1 G2]. apply IHfl; assumption.
+    + exact G.
+    + destruct x; first [apply good_err_cur; exact G | exact G].
+    + exact I.
+  - intros prec lhs s Hl H. rewrite p_fexpr_loop_S. pgo IHquery IHsel IHbr IHfs IHfe IHfl IHpr IHin IHgr IHgl IHpf IHfn IHal IHai.
+  - intros s H. rewrite p_primary_S. pgo IHquery IHsel IHbr IHfs IHfe IHfl IHpr IHin IHgr IHgl IHpf IHfn IHal IHai.
+  - intros lhs s Hl H. rewrite p_infix_S. pgo IHquery IHsel IHbr IHfs IHfe IHfl IHpr IHin IHgr IHgl IHpf IHfn IHal IHai.
+  - intros s H. rewrite p_grouped_S. pgo IHquery IHsel IHbr IHfs IHfe IHfl IHpr IHin IHgr IHgl IHpf IHfn IHal IHai.
+  - intros e s He H. rewrite p_grouped_loop_S. pgo IHquery IHsel IHbr IHfs IHfe IHfl IHpr IHin IHgr IHgl IHpf IHfn IHal IHai.
+  - intros s H. rewrite p_prefix_S. pgo IHquery IHsel IHbr IHfs IHfe IHfl IHpr IHin IHgr IHgl IHpf IHfn IHal IHai.
+  - intros s H. rewrite p_function_S. pgo IHquery IHsel IHbr IHfs IHfe IHfl IHpr IHin IHgr IHgl IHpf IHfn IHal IHai.
+  - intros s H. rewrite p_args_loop_S. pgo IHquery IHsel IHbr IHfs IHfe IHfl IHpr IHin IHgr IHgl IHpf IHfn IHal IHai.
+  - intros e s He H. rewrite p_arg_infix_loop_S. pgo IHquery IHsel IHbr IHfs IHfe IHfl IHpr IHin IHgr IHgl IHpf IHfn IHal IHai.
+Qed.
+
+Theorem parse_offsets c off : toks <> [] -> ty (last toks eof_token) = T_EOF ->
+  p_parse cfg toks = PErr c off -> OffOk off.
+Proof.
+  intros Hne Hl. pose proof (sinv_init Hne Hl) as Hs. unfold p_parse. cbv zeta.
+  destruct (negb (is_ty T_ROOT (stream_init toks))).
+  { unfold err_cur. intros E. injection E as _ <-. apply off_cur; exact Hs. }
+  destruct (Q_all (parse_fuel toks)) as (Hq & _).
+  pose proof (Hq false (adv (stream_init toks)) (sinv0_adv _ Hs)) as G.
+  destruct (p_query cfg (parse_fuel toks) false (adv (stream_init toks))) as [q s1|c1 o1|x s1|]; cbn [pbind good] in *; try discriminate.
+  - destruct G as [_ G]. destruct (negb (is_ty T_EOF s1)); [|discriminate]. unfold err_cur. intros E. injection E as _ <-. apply off_cur; exact G.
+  - intros E. injection E as _ <-. exact G.
+Qed.
 End ParseInv.
